@@ -31,11 +31,14 @@ Sample(n, s2, xq, yq, z, c, cj, ci) ==
                 ELSE 0
    IN <<cs[1].w * nv(cs[1]) + cs[2].w * nv(cs[2]) + cs[3].w * nv(cs[3]) + cs[4].w * nv(cs[4]), Q * Q * ka.ad * 2>>
 Sign == IF S.rev THEN -1 ELSE 1
+RECURSIVE GCD(_, _)
+GCD(a, b) == IF b = 0 THEN a ELSE GCD(b, a % b)
 ValOK(e, pn, obs, s2, c) ==
    LET n == Bracket(S.layout.fs, s2) IN
    \E cj \in OwnCells(e.y[pn], Q), ci \in OwnCells(e.x[pn], Q) :
       LET r == Sample(n, s2, e.x[pn], e.y[pn], e.z[pn], c, cj, ci)
-      IN e.den % r[2] = 0 /\ obs = Sign * r[1] * (e.den \div r[2])
+          g == GCD(r[2], e.den)                       \* obs / den = r[1] / r[2] as rationals (level spacings need not divide den)
+      IN obs * (r[2] \div g) = Sign * r[1] * (e.den \div g)
 ScalOK(e, pn) ==
    \E cj \in OwnCells(e.y[pn], Q), ci \in OwnCells(e.x[pn], Q) :
       LET ka == Z2S(Zr(cj, ci), 0 - e.z[pn])
